@@ -74,4 +74,53 @@ Section Replay.
              (Some (k, snapshot_file W leftover hdr (run S M capply (firstn k hist) (init_node S cinit))))
              hist (length hist)
     end.
+
+  (** ** a node killed DURING a compaction.  Three successive compaction points k00 <= k0 <= k: the
+      catalogue holds the last two snapshots [k00; k0], the log on disk starts behind k00 — the log
+      is always cut ONE SNAPSHOT BEHIND (RaftLogManager::begin_ready_to_load keeps the newest
+      pointer pending and installs the previous one: "keep the log of the last two snapshots").
+      The compaction at [k] touches the disk as follows (StateApplyManager::do_build_snapshot,
+      RaftSnapshotManager::complete_snapshot, FileStore::do_log_compaction):
+        1. the new snapshot file is written completely (header, records, flush);
+        2. the snapshot file of k00 is removed (the catalogue keeps naming k0 as its last entry);
+        3. in EITHER order (two actors, the catalogue save is a fire-and-forget message):
+             - the catalogue [k0; k] is saved in the index file        ([catalogued])
+             - the log is cut at k0 (pointer log of the PREVIOUS snapshot)   ([cut])
+      A kill leaves one of the four combinations.  What start-up reads: the LAST catalogued
+      snapshot, and the log entries behind it that are still on disk. *)
+
+  (** start-up when the log on disk holds only the entries behind [base] ([suffix] = entries base+1 ..) *)
+  Definition start_up_cut (snap : option (nat * list record)) (base : nat) (suffix : list entry)
+             (last_applied : nat) : node :=
+    let '(snap_end, st0) :=
+      match snap with
+      | Some (k, recs) => (k, load_snapshot S cload recs (init_node S cinit))
+      | None => (0, init_node S cinit)
+      end in
+    if last_applied =? 0 then st0
+    else run S M capply (firstn (last_applied - snap_end) (skipn (snap_end - base) suffix)) st0.
+
+  Definition start_up_files_cut (snap : option (nat * list N)) (base : nat) (suffix : list entry)
+             (last_applied : nat) : res node :=
+    match snap with
+    | None => Ok (start_up_cut None base suffix last_applied)
+    | Some (k, file) =>
+        res_map (fun hr => start_up_cut (Some (k, decode_until dec_frame (snd hr))) base suffix last_applied)
+                (snap_read file)
+    end.
+
+  Definition snap_at (W : list N -> list N -> list N) (leftover hdr : list N) (hist : list entry) (k : nat)
+    : option (nat * list N) :=
+    match k with
+    | O => None
+    | _ => Some (k, snapshot_file W leftover hdr (run S M capply (firstn k hist) (init_node S cinit)))
+    end.
+
+  (** the restart of a node killed during the compaction at [k]; [catalogued] / [cut]: which of the two
+      independent final steps had reached the disk *)
+  Definition crash_restart (W : list N -> list N -> list N) (catalogued cut : bool)
+             (leftover0 hdr0 leftover hdr : list N) (hist : list entry) (k00 k0 k : nat) : res node :=
+    let base := if cut then k0 else k00 in
+    start_up_files_cut (if catalogued then snap_at W leftover hdr hist k else snap_at W leftover0 hdr0 hist k0)
+                       base (skipn base hist) (length hist).
 End Replay.
